@@ -52,6 +52,16 @@ class Check:
         self.extra = {}
         self.quiet = quiet
         self.anchor_error = None
+        self.rule_map = {}      # while a rule of a sibling property runs here: its rule ids -> the id it is reported under
+
+    def shared(self, mapping, fn, *args, **kw):
+        """Run a rule function that was written for another property, reporting its instances under this property's rule ids."""
+        old = self.rule_map
+        self.rule_map = dict(old, **mapping)
+        try:
+            return self.guarded(fn, *args, **kw)
+        finally:
+            self.rule_map = old
 
     # ---------------------------------------------------------------- recording
     def rule(self, rid: str, text: str, floor: int = 1):
@@ -62,9 +72,11 @@ class Check:
         self.functions_analysed.add(f"{module}.{qual}")
 
     def ok(self, rule: str, key: str, facts=None, vacuous=False):
+        rule = self.rule_map.get(rule, rule)
         self.instances.append((rule, key, True, _jsonable(facts), vacuous))
 
     def bad(self, rule: str, key: str, msg: str, facts=None, where: str = ""):
+        rule = self.rule_map.get(rule, rule)
         self.instances.append((rule, key, False, _jsonable(facts), False))
         self.findings.append(
             {"rule": rule, "key": key, "msg": msg, "facts": _jsonable(facts), "where": where}
